@@ -1097,3 +1097,72 @@ def rule_history(ctx, rep):
                               why="the report condition of a path depends on paths of another contract seen before (blocks of different contracts share ids)")
     rep.count("history rows", n)
     rep.require(n >= 40, f"T-HISTORY evaluated only {n} rows")
+
+
+def rule_group_all(ctx, rep):
+    rule = "T-GROUPALL"
+    rep.rule(rule, "detect_missing_tx_field_validations_group (the path search over everything a Tealer object holds): one entry per configured "
+                   "logic signature and per configured application, in group and transaction order, each holding that function's contract and "
+                   "exactly the paths the single-function search reports for it with the same predicate and report condition")
+    w = ctx.world
+    f = w.func(DU, "detect_missing_tx_field_validations_group")
+    single = w.func(DU, "detect_missing_tx_field_validations")
+    where = f"{ctx.path(DU)}:{f.node.lineno}"
+    TX = "tealer.execution_context.transactions"
+    TXN, GRP = w.cls(TX, "Transaction"), w.cls(TX, "GroupTransaction")
+    TL = w.cls("tealer.tealer", "Tealer")
+    pred = _marker_pred(ctx)
+    it = Interp(TXN.mod)
+
+    def fn(tag, validated=False):
+        x = _leaf_function(ctx, {"self": validated}, two_leaves=True, second_marks={"self": False})
+        x.fields["contract"] = Obj(w.cls("tealer.teal.teal", "Teal"), __tag__=tag)
+        x.fields["__tag__"] = tag
+        return x
+
+    def txn(ls=None, app=None, has_ls=None):
+        t = w.new(TXN)
+        it.assign_attr(t, "has_logic_sig", (ls is not None) if has_ls is None else has_ls)
+        it.assign_attr(t, "logic_sig", ls)
+        it.assign_attr(t, "application", app)
+        return t
+
+    A, B, C, D = fn("A"), fn("B"), fn("C", validated=True), fn("D")
+    groups = {
+        "one logic signature": [[txn(ls=A)]],
+        "one application": [[txn(app=B)]],
+        "logic signature and application on one transaction": [[txn(ls=A, app=B)]],
+        "two transactions in one group": [[txn(ls=A), txn(app=B)]],
+        "two groups": [[txn(ls=A)], [txn(app=B), txn(ls=D, app=C)]],
+        "signed by a logic signature that is not configured": [[txn(has_ls=True), txn(app=B)]],
+        "a function whose first leaf validates": [[txn(ls=C)]],
+        "no transactions": [[]],
+    }
+    import ast as _ast
+    only_long = FuncV(w.module(DU), _ast.parse("lambda path: len(path) > 5", mode="eval").body, closure=None)
+    for name, gs in groups.items():
+        objs = []
+        for txs in gs:
+            g = w.new(GRP)
+            it.assign_attr(g, "transactions", list(txs))
+            objs.append(g)
+        tl = Obj(TL, _groups=objs)
+        tl.fields["groups"] = objs
+        for rc_name, rc in (("default report condition", None), ("a report condition that rejects every path", only_long)):
+            want = []
+            for txs in gs:
+                for t in txs:
+                    for role in ("logic_sig", "application"):
+                        fx = w.getattr(t, role)
+                        if fx is None or (role == "logic_sig" and not w.getattr(t, "has_logic_sig")):
+                            continue
+                        paths = w.call(single, fx, pred, *([rc] if rc is not None else []))
+                        want.append((fx.fields["__tag__"], [[w.getattr(b, "idx") for b in p] for p in paths]))
+            try:
+                out = w.call(f, tl, pred, *([rc] if rc is not None else []))
+                got = [(c.fields.get("__tag__"), [[w.getattr(b, "idx") for b in p] for p in ps]) for c, ps in out]
+            except PyRaise as e:
+                got = f"RAISES {e.exc} {e.where}"
+            rep.check(got == want, rule, f"{name}, {rc_name}", where, got, want,
+                      why="the paths reported for a Tealer object are not the paths of its configured functions", sample={"groups": name, "entries": len(want)})
+    rep.require(sum(1 for _ in groups) >= 8, "T-GROUPALL rows")
